@@ -595,7 +595,19 @@ def _check_sc_fibre(s, v, outshape):
     return True
 
 
+def _precision_event(a, b):
+    """ghost: a constant stored as a lower-precision tensor enters arithmetic with a higher-precision tensor
+    (the constant was rounded when the tensor was created: 1/3 in float32 is not 1/3 in float64)"""
+    for x, y in ((a, b), (b, a)):
+        if getattr(x, "_from_const", False) and x.dtype.name in ("float32", "float16") and \
+                y.dtype.name in ("float64", "complex128"):
+            c = Ctx.cur
+            if c is not None:
+                c.ghost.setdefault("precision_events", []).append("%s constant used with %s operand" % (x.dtype.name, y.dtype.name))
+
+
 def _res_dtype(a, b):
+    _precision_event(a, b)
     if a.dtype.is_complex:
         return a.dtype
     if b.dtype.is_complex:
@@ -1353,7 +1365,9 @@ class Const(Tensor):
     def _sub(self, d):
         if isinstance(d, (list, tuple)):
             return Const(list(d), self.dtype)
-        return Tensor("sc", Sc.of(d), (), self.dtype)
+        t = Tensor("sc", Sc.of(d), (), self.dtype)
+        t._from_const = True
+        return t
 
     def __getitem__(self, i):
         if isinstance(i, (int, slice)):
@@ -1574,7 +1588,10 @@ class RowBlock(object):
             r = self.rows[i]
             if r is None:
                 raise OutOfSubset("read of a row that was never written (uninitialised memory)")
-            return r
+            # reading a row of a buffer gives a *view*: it aliases the buffer's storage
+            v = Tensor(r.kind, r.v, r._shape, r.dtype, r.vaxes)
+            v._view_of = (self, i if i >= 0 else len(self.rows) + i)
+            return v
         raise OutOfSubset("row-block index %r" % (i,))
 
     @property
